@@ -139,6 +139,91 @@ def counter_guard_gap(st):
     return None
 
 
+def c_to_py(body):
+    """tiny C -> Python transpiler for if/else bodies over integer variables (assignments, returns of true/false, output
+    statements, brace-less single-statement ifs); raises on anything else"""
+    toks = re.findall(r'\{|\}|;|[^{};]+', body.strip()[1:-1])
+    out = []
+
+    def name(n):
+        return n if n.lstrip('-').isdigit() else (repr(n) if n.startswith('Trans') and n not in ('TransformationCounter', 'TransError') else f'V[{n!r}]')
+
+    def cond_py(c):
+        c = c.replace('&&', ' and ').replace('||', ' or ')
+        c = re.sub(r'!(?!=)', ' not ', c)
+        return re.sub(r'\b([A-Za-z_]\w*)\b', lambda n: n.group(1) if n.group(1) in ('and', 'or', 'not') else f"V[{n.group(1)!r}]", c)
+
+    def simple(t, ind):
+        if re.match(r'^(cerr|llvm::errs\(\)|std::cerr)\s*<<', t):
+            out.append('    ' * ind + 'pass')
+            return
+        m = re.match(r'^return\s+(true|false)$', t)
+        if m:
+            out.append('    ' * ind + f'return {m.group(1) == "true"}, V')
+            return
+        m = re.match(r'^(\w+)\s*=\s*(-?\w+)$', t)
+        if m:
+            out.append('    ' * ind + f'V[{m.group(1)!r}] = {name(m.group(2))}')
+            return
+        raise ValueError('cannot translate: ' + t[:60])
+    ind = 1
+    for t in toks:
+        t = ' '.join(t.split())
+        if not t or t in ('{', ';'):
+            continue
+        if t == '}':
+            ind -= 1
+            continue
+        m = re.match(r'^(else )?if ?\(', t)
+        if m:
+            i, d = m.end(), 1
+            while i < len(t) and d:
+                d += t[i] == '('
+                d -= t[i] == ')'
+                i += 1
+            cond, rest = t[m.end():i - 1], t[i:].strip()
+            out.append('    ' * ind + ('elif ' if m.group(1) else 'if ') + cond_py(cond) + ':')
+            if rest:
+                simple(rest, ind + 1)        # brace-less single statement
+            else:
+                ind += 1
+            continue
+        if t == 'else':
+            out.append('    ' * ind + 'else:')
+            ind += 1
+            continue
+        if t.startswith('else '):
+            out.append('    ' * ind + 'else:')
+            simple(t[5:], ind + 1)
+            continue
+        simple(t, ind)
+    src = 'def f(V):\n' + '\n'.join(out) + '\n    return None, V\n'
+    ns = {}
+    exec(src, {'__builtins__': {}}, ns)
+    return ns['f']
+
+
+def check_counter_validity_gap(body):
+    """None if `Transformation::checkCounterValidity` refuses every out-of-range counter / to-counter when warnings are
+    off and clamps both when they are on; else the first assignment for which it does not"""
+    f = c_to_py(body)
+    for n in range(0, 3):
+        for c in range(1, n + 3):
+            for to in (-1, c, c + 1, n + 1, n + 2):
+                for warn in (False, True):
+                    V = {'TransformationCounter': c, 'ValidInstanceNum': n, 'ToCounter': to, 'WarnOnCounterOutOfBounds': warn, 'TransError': 'TransSuccess'}
+                    env = dict(V)
+                    ok, V2 = f(V)
+                    too_big = c > n or to > n
+                    if not warn:
+                        good = (ok is False and V2['TransError'] == 'TransMaxInstanceError') if too_big else (ok is True and V2['TransError'] == 'TransSuccess')
+                    else:
+                        good = ok is True and V2['TransformationCounter'] <= n and V2['ToCounter'] <= n
+                    if not good:
+                        return env
+    return None
+
+
 class Extractor:
     def __init__(self, repo):
         self.D = os.path.join(str(repo), 'clang_delta')
@@ -240,7 +325,19 @@ class Extractor:
         # which stream each message goes to
         out_msg = re.search(r'outputNumTransformationInstances\(\)\s*\{[^}]*llvm::outs\(\)\s*<<\s*"([^"]*)"', tm)
         err_msg = re.search(r'outputNumTransformationInstancesToStderr\(\)\s*\{[^}]*cerr\s*<<\s*"([^"]*)"', tm)
-        return {'default_error': default_error, 'invalid_counter': invalid_counter, 'die_uses_errorcode': die_uses_errorcode,
+        ccv_ok, ccv_gap = False, 'function not found'
+        for b in self.allfuncs.get(('Transformation', 'checkCounterValidity'), []):
+            try:
+                ccv_gap = check_counter_validity_gap(b)
+                ccv_ok = ccv_gap is None
+            except Exception as e:       # a body the reader cannot follow is not silently accepted
+                ccv_ok, ccv_gap = False, f'unreadable: {e}'
+        dt = (self.allfuncs.get(('TransformationManager', 'doTransformation')) or [''])[0]
+        iq = dt.find('if (QueryInstanceOnly)')
+        io = dt.find('getOutStream()')
+        query_before_output = iq >= 0 and io >= 0 and iq < io and bool(re.match(r'if \(QueryInstanceOnly\)\s*\{?\s*return true;', dt[iq:]))
+        return {'check_counter_validity_ok': ccv_ok, 'check_counter_validity_gap': ccv_gap, 'query_returns_before_output': query_before_output,
+                'default_error': default_error, 'invalid_counter': invalid_counter, 'die_uses_errorcode': die_uses_errorcode,
                 'main_returns_zero': main_returns_zero, 'stdout_msg': out_msg.group(1) if out_msg else None,
                 'stderr_msg': err_msg.group(1) if err_msg else None,
                 'invalid_counter_on_max_instance': bool(re.search(r'isInvalidCounterError\(\)\)\s*ErrorCode\s*=\s*ErrorInvalidCounter', tm))}
